@@ -12,6 +12,8 @@ HDIR = os.path.join(os.path.dirname(os.path.dirname(os.path.abspath(__file__))),
 
 # property -> [(harness file, {tier: per-condition timeout}, conditions only in thorough)]
 PLAN = {
+    "C14": [("h_c14s.py", {"quick": 200, "thorough": 900}, {"sym_set_allowed_later_full", "sym_remove_instance0"}),
+            ("h_c14.py", {"quick": 200, "thorough": 900}, {"allowed_later_equals_constructed3"} | {f"history3_first_{n}" for n in ("add_instance", "add_string", "remove_index", "remove_instance", "remove_index_list", "remove_instance_list", "set_allowed", "set_required", "remove_duplicates", "reindex", "add_from_file")})],
     "C15": [("h_c15.py", {"quick": 150, "thorough": 900}, {"dup_remove_leaves_one_per_class4"})],
 }
 
@@ -25,7 +27,7 @@ def main(pid, tier):
         path = os.path.join(HDIR, fname)
         conds = [n for n, _ in runner.conditions(path)]
         only = set(conds) if tier == "thorough" else set(conds) - thorough_only
-        results = runner.run_module(path, tmo[tier], only=only)
+        results = runner.run_module(path, tmo[tier], only=only, unblock=(fname in UNBLOCK_FILES))
         for r in results:
             name = f"{fname}:{r['name']}"
             chk.functions.add(name)
@@ -60,7 +62,17 @@ def main(pid, tier):
     return chk
 
 
+UNBLOCK_FILES = {"h_c14.py"}
+
 META = {
+    "C14": dict(
+        bounds={"symbolic (h_c14s)": "networks of 2 reactions over stub species with symbolic integer identities in [0,2] (every aliasing pattern), allowed lists of 2 symbolic labels; add with/without allowed list, remove by index, re-examination under a later allowed list",
+                "selected (h_c14)": "one operation out of 11 kinds (add instance/string/file, remove by index/list/instance/instance list, set allowed, set required, remove duplicates, reindex) from every pre-state with <=2 held reactions (pool of 7 real reactions) and 3 allowed lists; all histories of 2 operations (11x11x11 argument choices); histories of 3 in thorough",
+                "cli": "naunet extend with --remove-duplicate, --remove-species, --reduce-by-species and combinations on a 7-reaction file"},
+        assume=["stub species/reactions bypass name parsing (C08's subject) so that Network's list/set logic runs on symbolic values", "selector conditions: the solver enumerates every selection within the precondition, the real Network then runs untraced and is compared with an explicit model",
+                "Changing the allowed list later is compared with construction as *sets* of reactions and species (the property's wording)", "CrossHair verdict 'Confirmed over all paths' is trusted"],
+        rule="one condition = one CrossHair run to 'Confirmed over all paths' (or one command-line scenario compared with the model); distinct = distinct conditions",
+    ),
     "C15": dict(
         bounds={"symbolic labels": "lists of <=4 integer labels in [0,3] (every equality pattern of 4 reactions)", "real reactions": "lists of <=3 selected from a pool of 10 (permuted reactants/products, two electron spellings, differing window / type, 3-body)", "modes": ["default", "brief", "minimal", "short"]},
         assume=["(a) the hash table algorithm is exercised with stub reactions whose identity is a symbolic integer (fully symbolic, all paths exhausted)", "(b) real Reaction objects are picked by symbolic selectors and then run untraced: the solver enumerates every selection within the bound",
